@@ -1638,6 +1638,7 @@ Proof.
   destruct (check_position (rd_src_end a)) as [se|e2] eqn:P2; [|injection H as <- <-; reflexivity].
   destruct (check_position (rd_dst_start a)) as [ds|e3] eqn:P3; [|injection H as <- <-; reflexivity].
   destruct (check_position (rd_dst_end a)) as [de|e4] eqn:P4; [|injection H as <- <-; reflexivity].
+  destruct ((rd_diti_reuse a <? 0) || (rd_multi_disp a <? 0))%Z; [injection H as <- <-; reflexivity|].
   destruct (existsb _ _); [injection H as <- <-; reflexivity|].
   destruct (text_ok true (rd_src_label a)) as [sl|] eqn:T1; [|injection H as <- <-; reflexivity].
   destruct (check_volume (rvol_pvol (rd_volume a)) (Some (w_max w))) as [v|ev] eqn:EV;
